@@ -242,6 +242,7 @@ type sev struct {
 	events   []sevEvent
 	eventFns map[*types.Func]string
 	sink     string // name of the symbolic text sink whose writes are recorded
+	symCells map[*tcell]bool // cells standing for fields of symbolic inputs (stores into them are not modelled)
 	// functions not to look into (treated as uninterpreted functions of their arguments)
 	opaque func(*types.Func) bool
 	// identity(): accept a struct of a different named type with the identical underlying struct (a conversion wrapper)
@@ -1165,7 +1166,7 @@ func (s *sev) eval(fr *sevFrame, e ast.Expr) tv {
 		T := info.Types[x.Type].Type
 		return s.assertTo(v, T)
 	case *ast.FuncLit:
-		s.abort("function literal")
+		return &tCallU{Name: "func-literal"} // may be passed around (comparators); applying it is not modelled
 	case *ast.SliceExpr:
 		base := s.deref(s.eval(fr, x.X))
 		if sym, ok := base.(*tSym); ok && !x.Slice3 {
@@ -1344,10 +1345,15 @@ func (s *sev) lval(fr *sevFrame, e ast.Expr) *tcell {
 			} else {
 				base = s.eval(fr, x.X)
 			}
+			c := s.selectField(base, sel.Recv(), sel)
 			if _, isSym := s.deref(base).(*tSym); isSym {
-				s.abort("store into a field of the symbolic input %s", base.ts())
+				// reading through an address is fine (method receivers); a store into it is not modelled
+				if s.symCells == nil {
+					s.symCells = map[*tcell]bool{}
+				}
+				s.symCells[c] = true
 			}
-			return s.selectField(base, sel.Recv(), sel)
+			return c
 		}
 	case *ast.StarExpr:
 		v := s.eval(fr, x.X)
@@ -1533,6 +1539,9 @@ func (s *sev) assign(fr *sevFrame, lhs ast.Expr, v tv, def bool) {
 
 // loopAwareStore: inside a symbolic loop, `outer = append(outer, e)` is recorded as the per-element image.
 func (s *sev) loopAwareStore(fr *sevFrame, c *tcell, v tv) {
+	if s.symCells[c] {
+		s.abort("store into a field of a symbolic input")
+	}
 	if len(s.loops) > 0 {
 		lc := s.loops[len(s.loops)-1]
 		if s.isOuterCell(lc, c) {
@@ -1614,6 +1623,9 @@ func reachesCell(v tv, c *tcell, d int) bool {
 }
 
 func (s *sev) indexStore(fr *sevFrame, base *tcell, idx, v tv) {
+	if s.symCells[base] {
+		s.abort("store into an element of a symbolic input")
+	}
 	if len(s.loops) > 0 {
 		lc := s.loops[len(s.loops)-1]
 		if s.isOuterCell(lc, base) {
@@ -2232,6 +2244,24 @@ func (s *sev) execRange(fr *sevFrame, x *ast.RangeStmt) ctl {
 		lc.distinct = true
 		kTerm = &tSym{Name: "idx:" + m.Elem.Name, T: types.Typ[types.Int]}
 		vTerm = m.Key
+	case *tCallU:
+		// an uninterpreted collection (e.g. the iterator a method of a symbolic value returns): one representative element
+		var et types.Type
+		if id, ok := x.Value.(*ast.Ident); ok && id.Name != "_" && info.Defs[id] != nil {
+			et = info.Defs[id].Type()
+		} else if id, ok := x.Key.(*ast.Ident); ok && id.Name != "_" && info.Defs[id] != nil {
+			et = info.Defs[id].Type()
+		}
+		if et == nil {
+			s.abort("range over %s", over.ts())
+		}
+		lc.elem = s.newSym("elem("+o.ts()+")", et)
+		if _, isFn := types.Unalias(overT).Underlying().(*types.Signature); isFn && x.Value == nil {
+			kTerm = lc.elem // range-over-func with one variable: it is the yielded value
+		} else {
+			kTerm = &tSym{Name: "idx:" + lc.elem.Name, T: types.Typ[types.Int]}
+		}
+		vTerm = lc.elem
 	default:
 		s.abort("range over %s", over.ts())
 	}
